@@ -106,6 +106,16 @@ def run_task(name):
                         o["detail"] = f"counter-model over a universe of {k} names"
                         o["model"] = r.get("model", "")[:2500]
                         o["solver"] = r["solver"] + f" finite-scope({k})"
+                        # the counter-model as a concrete input, run on the real code by the bounded module's oracle
+                        prop = os.environ.get("PYVC_PROP")
+                        ins = ob.get("inputs")
+                        if prop and ins and r.get("_model") is not None:
+                            from pyvc import replay as _replay
+                            rp = _replay.replay(name, prop, fctx, ins.get("ex"), r["_model"], ins)
+                            if rp:
+                                o["replayed"] = True
+                                o["replay_case"] = rp["case"]
+                                o["detail"] += f"; replayed on the real code: {rp['failures']}"
                     else:
                         still.append(o)
                 bad = still
@@ -121,6 +131,8 @@ def run_task(name):
     except Exception:
         out["status"] = "crash"
         out["detail"] = traceback.format_exc()[-2000:]
+    for o in out["obligations"]:
+        o.pop("_model", None)
     out["assumed"] = sorted(models.ASSUMED_USED)
     from pyvc import engine as _engine
     out["locals"] = dict(_engine.LOCALS_SEEN)
@@ -139,6 +151,8 @@ def main():
     a = ap.parse_args()
     from pyvc import plan
     tasks = all_tasks()
+    if a.prop:
+        os.environ["PYVC_PROP"] = a.prop
     if a.relock:
         os.environ["PYVC_RELOCK"] = "1"
         names = sorted(tasks)
